@@ -67,6 +67,7 @@ struct FdEnt {
 
 struct Node {
     int task = -1;
+    bool stdout_fault_seen = false;  // a write() to standard output failed or was cut short by the simulator
     std::string name, prog;
     int64_t clock_offset = 0;  // node CLOCK_REALTIME = world.now + clock_offset
     std::vector<std::string> argv;
@@ -146,6 +147,8 @@ class World {
     // full fails with ENOBUFS, as on real controllers (txqueuelen 10). 0 = unlimited (virtual CAN).
     size_t can_txq_cap = 0;
     uint64_t can_tx_ns = 120000;
+    double stdout_fault_p = 0;  // write(1, ...) fails with EAGAIN / EINTR or is cut short with this probability (a pipe whose reader falls behind)
+    uint64_t env_seed = 0;   // selects the values
     bool env_on = false;     // every environment variable a program asks for reads "1" (debug switches and the like)
     double can_read0_p = 0;  // cooperative fault point: read() on a CAN socket returns 0 (the talker explicitly retries on 0)
     uint64_t step_budget = 20000000ULL;
